@@ -43,7 +43,7 @@ def jobs(tier):
         if tier == "quick" and not (a in CHEAP and b in CHEAP) and not ((a in CHEAP or b in CHEAP) and "INV_S" in (a, b)) \
                 and (a, b) not in (("S3", "S2"), ("S2", "S3")):
             continue
-        HEAVY_OK = {("T3", "S3"), ("S3", "T3"), ("T3", "L3"), ("L3", "T3"), ("T2", "S3"), ("S3", "T2"), ("S3", "S2"), ("S2", "S3")}
+        HEAVY_OK = {("S3", "S2"), ("S2", "S3")}   # two fully symbolic tuple entries cost > 30 min per shard: not in any tier
         if tier != "quick" and a not in CHEAP[1:] and b not in CHEAP[1:] and (a, b) != ("S2", "S2") and (a, b) not in HEAVY_OK:
             continue   # thorough: eight ordered pairs of two fully symbolic entries (each ~110 s x 6 shards); the rest adds cost, not coverage
         if a not in CHEAP[1:] and b not in CHEAP[1:] and (a != "S2" or b != "S2"):
@@ -64,7 +64,7 @@ def meta_for(tier):
     m = dict(META)
     m["bounds"] = ["list length 0..%d over the 7 entry kinds %s: %s" % (2 if tier == "quick" else 3, KINDS,
                    "all singletons, ordered pairs with at least one string/invalid entry" if tier == "quick" else
-                   "all singletons, all ordered pairs, triples with at least two string/invalid entries"),
+                   "as quick, plus triples of string/invalid entries"),
                    "colours: all 8-bit values; large / very_readable: symbolic booleans; mode: symbolic integer"]
     m["outside"] = ["longer lists (the loop body has no cross-entry state besides the report list, which is only built with save_report)",
                     "save_report=True (file effects, C17 n/a)", "translucent / hsl / hex spellings inside bulk entries (spelling handling is C07/C13)"]
